@@ -117,7 +117,8 @@ SUB = ["point_line2", "point_line3", "point_plane", "plane_line", "plane_plane",
 def sub_case(draw, tier="quick"):
     cfg = draw(st.sampled_from(SUB))
     return {"cfg": cfg, "v": [draw(C.ints(9)) for _ in range(12)], "on": draw(st.sampled_from([False, False, True])), "s1": draw(C.scale()), "s2": draw(C.scale()),
-            "coef": [draw(st.integers(-3, 3)) for _ in range(2)], "coll": draw(st.sampled_from([0, 0, 2])), "off": draw(st.integers(-5, 5))}
+            "coef": [draw(st.integers(-3, 3)) for _ in range(2)], "coll": draw(st.sampled_from([0, 0, 2])), "off": draw(st.integers(-5, 5)),
+            "derive": draw(st.sampled_from([None, None, "translation*", "scaling*"])), "move": [draw(st.integers(-4, 4)) for _ in range(3)]}
 
 
 def run_sub(c):
@@ -182,6 +183,11 @@ def run_sub(c):
         S = (Line if d == 2 else Plane)(vec)
         p = vec[:-1] / vec[-1]
         exp = abs(np.dot(vec[:-1], p) + vec[-1]) / np.linalg.norm(vec[:-1])
+    if c.get("derive") and cfg not in ("samecoords2", "samecoords3"):
+        # the subspace is obtained by derivation from an already used object (moved away, used, moved back)
+        S, f = call(f"dist:{cfg}:derive({c['derive']})", Z.rederive, S, c.get("move", [1, 2, 3]), c["derive"])
+        if f:
+            return [f]
     if c["coll"] and cfg not in ("samecoords2", "samecoords3"):
         cls = {G.Point: PointCollection, G.Line: LineCollection, G.Plane: PlaneCollection}[type(O)]
         O = cls(np.stack([O.array, O.array * 2.0]))
@@ -204,7 +210,7 @@ def run_sub(c):
 def poly_case(draw, tier="quick"):
     cfg = draw(st.sampled_from(["segment2", "segment3", "polygon2", "polygon3", "cuboid"]))
     return {"cfg": cfg, "v": draw(Z.params()), "q": [draw(st.integers(-8, 8)) for _ in range(3)], "k": draw(st.integers(-4, 4)), "st": [draw(st.integers(-2, 6)), draw(st.integers(-2, 6))],
-            "coll": draw(st.sampled_from([0, 0, 2]))}
+            "coll": draw(st.sampled_from([0, 0, 2])), "derive": draw(st.sampled_from([None, None, "translation*", "+point", "scaling*"])), "move": [draw(st.integers(-4, 4)) for _ in range(3)]}
 
 
 def seg_dist(p, a, b):
@@ -273,6 +279,10 @@ def run_poly(c):
             raise Skip("interior point of a polyhedron")
         exp = np.linalg.norm(excess)
     Q = P(q)
+    if c.get("derive"):
+        S, f = call(f"dist:{cfg}:derive({c['derive']})", Z.rederive, S, c.get("move", [1, 2, 3]), c["derive"])
+        if f:
+            return [f]
     if c["coll"]:
         Q = PointCollection(np.stack([Q.array, Q.array * 3.0]))
         exp = np.array([exp, exp])
@@ -470,9 +480,9 @@ def sub_nontrivial(c):
 LAWS = [
     Law("dist_point_point", lambda tier: pp_case(tier), run_pp, lambda c: all(any(p) for p in c["p"]), lambda c: [f"d{c['d']}", "coll" if c["n"] else "single", f"inf={c['inf']}"] + (["int-array-vs-fractional-float"] if not c["inf"] and not c["same"] and any(c.get("intdtype", [0, 0])[k] and c.get("den", [1, 1])[k] == 1 and c.get("den", [1, 1])[1 - k] > 1 for k in range(2)) else []),
         {"quick": 1200, "thorough": 30000}, "Euclidean point distance, symmetry, zero iff equal, inf for one infinite point; coordinates k/4, integer-typed vs float arrays", shard=400, mandatory=("int-array-vs-fractional-float",)),
-    Law("dist_subspace", lambda tier: sub_case(tier), run_sub, sub_nontrivial, lambda c: [c["cfg"], "incident" if c["on"] else "generic"], {"quick": 2000, "thorough": 40000},
+    Law("dist_subspace", lambda tier: sub_case(tier), run_sub, sub_nontrivial, lambda c: [c["cfg"], "incident" if c["on"] else "generic"] + (["derived-from-a-used-object"] if c.get("derive") else []), {"quick": 2000, "thorough": 40000},
         "point-line/plane, plane-parallel line/plane, both orders, incident pairs, equal coordinate vectors of different kinds", shard=400),
-    Law("dist_polytope", lambda tier: poly_case(tier), run_poly, lambda c: True, lambda c: [c["cfg"]], {"quick": 700, "thorough": 12000},
+    Law("dist_polytope", lambda tier: poly_case(tier), run_poly, lambda c: True, lambda c: [c["cfg"]] + (["derived-from-a-used-object"] if c.get("derive") else []), {"quick": 700, "thorough": 12000},
         "point-segment, point-polygon (2D boundary/outside, 3D anywhere), point-cuboid (outside/surface); Segment.length", shard=150),
     Law("angle", lambda tier: ang_case(tier), run_ang, lambda c: True, lambda c: [c["cfg"]] + ([c["iso"]] if c["iso"] else []), {"quick": 2000, "thorough": 40000},
         "angle mod pi with README orientation in 2D (antisymmetric, isometry behaviour), cos^2 in 3D / planes; Polygon.angles", shard=400),
